@@ -32,6 +32,11 @@ fn validate_id(id: &str, first_byte: u8) -> Result<(), Error> {
         return Err(Error::MissingLeadingSigil);
     }
 
+    // The sigil alone is not an identifier.
+    if id.len() == 1 {
+        return Err(Error::Empty);
+    }
+
     Ok(())
 }
 
